@@ -255,7 +255,7 @@ theorem gen_fjsp_solvable (M N : Nat) (nOps : List Nat) (minPt maxPt : Int) (nEl
   rcases hsc with h | h
   · exact anyUpTo_iff.mp h
   · refine ⟨0, by simp only [env, nAct]; split <;> omega, ?_⟩
-    simp only [env, mask, if_true, noOpMask]
+    simp only [env, mask, if_true, noOpMask_eq]
     split <;> simp [h]
 
 /-- non-vacuity: the generator example of `Props/C18/Sched.lean` (operation counts `[2, 3, 1]`, padded to 8) -/
